@@ -143,9 +143,19 @@ def point_to_choices(dims, nleaves, ntoks, point):
     return leafopts, gaps
 
 
+REFUSED = ["<A><B1>x</B1>", "<A></B1>", "<A><B1></A></B1>", "<A>x</A>junk"]
+
+
 def work(chunk):
     t = Tally()
-    for term, k in chunk:
+    for n, (term, k) in enumerate(chunk):
+        if n % 25 == 0:
+            # the property holds whatever was parsed before - in particular after a document that was refused
+            for bad in REFUSED:
+                try:
+                    lib_parse(bad)
+                except Exception:
+                    pass
         dims, nleaves, ntoks = rendering_space(term)
         for point in deviations(dims, k):
             leafopts, gaps = point_to_choices(dims, nleaves, ntoks, point)
@@ -211,6 +221,7 @@ def run(ctx):
         "assumptions": [
             "tag alphabet of three names stands for all names over [A-Z0-9._]; data alphabet of seven values",
             "white space adjacent to a CDATA section inside its own element is not in the rendering alphabet",
+            "every 25th tree is preceded by four malformed bodies (their refusal is C08's business; here they only precede the well-formed ones)",
             "root of a body is an aggregate",
         ],
     }
